@@ -76,6 +76,9 @@ inductive FeedRes where
   | stop (items : List Item)                        -- a panic item was produced
   deriving Repr
 
+/-- `if item.len() > self.size { item.truncate(self.size) }` -/
+def clipFrag (size : Nat) (f : Bytes) : Bytes := if size < f.length then f.take size else f
+
 /-- `HttpRangeRequest::poll_read_fail`, `Stream` arm, for each fragment, followed by the
 `ChunkReader` loop (`chunk_buf.extend`, then hand out chunks). -/
 def CR.feed : List Bytes → CR → FeedRes
@@ -84,17 +87,17 @@ def CR.feed : List Bytes → CR → FeedRes
     match st.req with
     | none => .runDone [] st
     | some (off, size, rl) =>
-      if size < f.length then .stop [Item.panic]        -- `self.size -= item.len()` underflows
-      else
-        let (its, st', p) := CR.drain st.chunks (st.buf ++ f) st.adj (some (off + f.length, size - f.length, rl))
-        if p then .stop its
-        else match st'.req with
-          | none => .runDone its st'
-          | some _ =>
-            match CR.feed fs st' with
-            | .runDone its2 st2 => .runDone (its ++ its2) st2
-            | .bodyDone its2 st2 => .bodyDone (its ++ its2) st2
-            | .stop its2 => .stop (its ++ its2)
+      -- a fragment longer than what is still requested is truncated (F8.h repair)
+      let f := clipFrag size f
+      let (its, st', p) := CR.drain st.chunks (st.buf ++ f) st.adj (some (off + f.length, size - f.length, rl))
+      if p then .stop its
+      else match st'.req with
+        | none => .runDone its st'
+        | some _ =>
+          match CR.feed fs st' with
+          | .runDone its2 st2 => .runDone (its ++ its2) st2
+          | .bodyDone its2 st2 => .bodyDone (its ++ its2) st2
+          | .stop its2 => .stop (its ++ its2)
 
 /-- `if self.request.is_none()`: new range request for the maximal adjacent run. -/
 def CR.ensureReq (retry : Nat) (st : CR) : CR :=
